@@ -229,6 +229,13 @@ def anyPrefixWithFirst (prefixes : List (List Nat)) (text : List Nat) (start : N
     | [] => false
     | c :: _ => text[start]? == some c && occursAt eqExact p text start
 
+/-- `leadingPrefixFirstRunes(prefixes)` (optimizations.go): the distinct first runes, in order -/
+def leadingPrefixFirstRunes (prefixes : List (List Nat)) : List Nat :=
+  prefixes.foldl (fun first p =>
+    match p with
+    | c :: _ => if first.contains c then first else first ++ [c]
+    | [] => first) []
+
 /-- `findLeadingStringsLeftToRight(r, prefixes, firstRunes, ignoreCase)` -/
 def finderLeadingStrings (lower : Nat → Nat) (prefixes : List (List Nat)) (firstRunes : List Nat)
     (ignoreCase : Bool) (text : List Nat) (minLen pos : Nat) : Bool × Nat :=
